@@ -114,6 +114,12 @@ def run(ctx):
             for (fn_, api_), why in allowed.items():
                 if api_ == api and modname(fn_) == modname(root):
                     reason = why
+        if not reason:
+            # a private helper whose every caller chain ends in exactly one function that is allowed this API
+            import c05
+            ent = c05._sole_allowed_ancestor(p, root, {fn_: {"api": api_, "reason": why} for (fn_, api_), why in allowed.items() if api_ == api})
+            if ent is not None:
+                reason = ent["reason"]
         r.instance("R15-a", "%s -> %s" % (short(owner), api), "allowed" if reason else "violation", c.loc(), reason or "")
         if not reason:
             r.violation("R15-a", "ambient input: %s calls %s" % (short(owner), api),
